@@ -151,6 +151,10 @@ def run_tapped_case(ctx, kind_, idx):
         # a day of per-second traffic: 66 000..90 000 samples whose POWER varies along the series (quiet night, busy
         # evening) - mean(y^2) is one number for the whole signal, whatever way it is accumulated
         n = gen.huge_size(rng)
+        if idx % 6 == 5:
+            # two weeks of per-second samples: more than 2**20, and not a multiple of it (a power accumulated block by
+            # block must weigh the last, shorter block by its length)
+            n = int(rng.integers(2 ** 20 + 50000, int(1.6 * 2 ** 20)))
         u = np.linspace(0.0, 1.0, n)
         a = (0.2 + 4.0 * u ** 2) * (1.0 + 0.3 * np.sin(40 * u)) + rng.normal(0, 0.05, n)
         acls = "long_varying_power"
